@@ -52,6 +52,17 @@ def fsum(a: float, b: float) -> float:
     return a + b
 
 @guppy
+def bump_o3(xs: array[int, 3], k: int) -> None:
+    xs[2] = xs[2] + k
+
+@guppy
+def bump_o2(xs: array[int, 2], k: int) -> None:
+    xs[0] = xs[0] + k
+
+@guppy.overload(bump_o2, bump_o3)
+def bump_ov(): ...
+
+@guppy
 def selb(c: bool, a: int, b: int) -> int:
     if c:
         return a
@@ -131,8 +142,11 @@ def gen_stmt(rng, k):
         v = rng.choice(['result("r{k}", add3(x, y, 5))', 'result("r{k}", add3(1, x, y))',
                         'result("r{k}", fsum(f, 0.25))', 'result("r{k}", add3(x, add3(y, 1, 2), 3))'])
         return v.replace("{k}", str(k)), "call:pure"
-    if c < 0.965:
+    if c < 0.96:
         return f'bump(xs, x)\n    result("r{k}", xs)', "call:borrow-mutate"
+    if c < 0.965:
+        # the borrowing callee is an overload set: the argument must be handed back all the same
+        return f'bump_ov(xs, x)\n    bump_ov(xs, 1)\n    result("r{k}", xs)', "call:borrow-mutate-overloaded"
     # containers built inside the body (Python constants / mixed with traced values in comptime
     # mode) lent to a mutating callee more than once, then read.  Traced slots are fresh
     # temporaries used nowhere else, one per slot: GuppyObjects are references in comptime mode, so
